@@ -17,3 +17,125 @@ package forward
 //@   modifies everything
 //@   ensures paired: calls(s.stateListener) == 2 && callarg(s.stateListener, 0, 1) == 0 && callarg(s.stateListener, 1, 1) == 1 && calls(s.next.ServeHTTP) == 1
 //@   ensures_panic paired_when_forwarding_aborts: calls(s.next.ServeHTTP) == 1 ==> calls(s.stateListener) == 2 && callarg(s.stateListener, 1, 1) == 1
+
+// ---- C08: the Director of the pre-configured ReverseProxy -------------------------------------------------------------
+// net/url is outside oxy: url.ParseRequestURI is characterised by uninterpreted functions of the request line; that the
+// parsed (Path, RawPath, RawQuery) re-serialise to the very text they were parsed from is net/url's round trip (assumed,
+// see DESIGN.md C08). What is proved here is that oxy hands exactly those three components to the proxy, leaves the
+// backend's scheme and host alone, and fills the forwarding headers as the property says.
+
+//@ spec pu_ok(s string) bool
+//@ spec pu_path(s string) string
+//@ spec pu_rawpath(s string) string
+//@ spec pu_query(s string) string
+//@ spec pu_forcequery(s string) bool
+
+//@ extern net/url.ParseRequestURI
+//@   params rawURL
+//@   ensures (result1 == nil) <==> pu_ok(rawURL)
+//@   ensures result1 == nil ==> result0 != nil && fresh(result0) && result0.Path == pu_path(rawURL) && result0.RawPath == pu_rawpath(rawURL) && result0.RawQuery == pu_query(rawURL) && result0.ForceQuery == pu_forcequery(rawURL)
+
+//@ func getURLFromRequest
+//@   props C08 C16
+//@   requires req != nil
+//@   modifies nothing
+//@   ensures request_line_wins: req.RequestURI != "" && pu_ok(req.RequestURI) ==> result != nil && result.Path == pu_path(req.RequestURI) && result.RawPath == pu_rawpath(req.RequestURI) && result.RawQuery == pu_query(req.RequestURI)
+//@   ensures else_the_url: req.RequestURI == "" || !pu_ok(req.RequestURI) ==> result == req.URL
+
+//@ func modifyRequest
+//@   props C08 C16
+//@   requires outReq != nil && outReq.URL != nil
+//@   modifies outReq.URL.Path, outReq.URL.RawPath, outReq.URL.RawQuery, outReq.RequestURI, outReq.Proto, outReq.ProtoMajor, outReq.ProtoMinor
+//@   ensures target_as_the_client_sent_it: old(outReq.RequestURI) != "" && pu_ok(old(outReq.RequestURI)) ==> outReq.URL.Path == pu_path(old(outReq.RequestURI)) && outReq.URL.RawPath == pu_rawpath(old(outReq.RequestURI)) && outReq.URL.RawQuery == pu_query(old(outReq.RequestURI))
+//@   ensures url_kept_without_request_line: old(outReq.RequestURI) == "" || !pu_ok(old(outReq.RequestURI)) ==> outReq.URL.Path == old(outReq.URL.Path) && outReq.URL.RawPath == old(outReq.URL.RawPath) && outReq.URL.RawQuery == old(outReq.URL.RawQuery)
+//@   ensures backend_untouched: outReq.URL == old(outReq.URL) && outReq.URL.Scheme == old(outReq.URL.Scheme) && outReq.URL.Host == old(outReq.URL.Host)
+//@   ensures http11_no_request_uri: outReq.RequestURI == "" && outReq.Proto == "HTTP/1.1" && outReq.ProtoMajor == 1 && outReq.ProtoMinor == 1
+
+// Forwarding headers. http.Header = map from canonical key to values, Get = first value or "". Strings are uninterpreted
+// here: net.SplitHostPort is characterised by shp_ok / shp_host / shp_port (utils/verif_contracts.go: its string-level meaning
+// for the address forms net/http produces is the assumed contract there), the zone cut by zonecut, defined below and
+// proved for ipv6fix in SMT strings.
+//@ spec zonecut(s string) string
+//@ axiom zonecut_def: forall s string :: zonecut(s) == ite(contains(s, "%"), substr(s, 0, indexof(s, "%")), s)
+//@ pred fwdName(k string) = k == canon("X-Forwarded-Proto") || k == canon("X-Forwarded-For") || k == canon("X-Forwarded-Host") || k == canon("X-Forwarded-Port") || k == canon("X-Forwarded-Server") || k == canon("X-Real-Ip")
+//@ axiom fwd_names_canonical: canon("X-Forwarded-Proto") == "X-Forwarded-Proto" && canon("X-Forwarded-For") == "X-Forwarded-For" && canon("X-Forwarded-Host") == "X-Forwarded-Host" && canon("X-Forwarded-Port") == "X-Forwarded-Port" && canon("X-Forwarded-Server") == "X-Forwarded-Server" && canon("X-Real-Ip") == "X-Real-Ip"
+//@ pred upstream(rw *HeaderRewriter, req *http.Request, k string) = ite(rw.TrustForwardHeader, old(header(req.Header, k)), "")
+//@ pred connPort(req *http.Request) = ite(shp_ok(req.Host) && shp_port(req.Host) != "", shp_port(req.Host), ite(header(req.Header, "X-Forwarded-Proto") == "https" || header(req.Header, "X-Forwarded-Proto") == "wss" || req.TLS != nil, "443", "80"))
+
+// The exported header lists are package variables; oxy never assigns them or their elements (no store in the loaded
+// program outside init). Their initial content is proved on the package initialiser, and assumed wherever they are read.
+//@ pred xheadersOK() = len(XHeaders) == 6 && XHeaders[0] == "X-Forwarded-Proto" && XHeaders[1] == "X-Forwarded-For" && XHeaders[2] == "X-Forwarded-Host" && XHeaders[3] == "X-Forwarded-Port" && XHeaders[4] == "X-Forwarded-Server" && XHeaders[5] == "X-Real-Ip"
+//@ globalinv XHeaders: xheadersOK()
+//@ func init
+//@   props C08
+//@   modifies everything
+//@   ensures initial_header_lists: xheadersOK()
+
+//@ func ipv6fix
+//@   props C08
+//@   strings
+//@   ensures zone_cut: result == zonecut(clientIP)
+
+//@ func forwardedPort
+//@   props C08
+//@   modifies nothing
+//@   ensures req == nil ==> result == ""
+//@   ensures port_of_the_connection: req != nil ==> result == connPort(req)
+
+//@ func (*HeaderRewriter).Rewrite
+//@   props C08
+//@   requires rw != nil && req != nil && req.Header != nil
+//@   requires header_values_allocated: forall k string :: allocated(backing(req.Header[k]))
+//@   modifies mapof(req.Header)
+//@   ensures proto_kept_or_from_connection: header(req.Header, "X-Forwarded-Proto") == ite(upstream(rw, req, "X-Forwarded-Proto") != "", upstream(rw, req, "X-Forwarded-Proto"), ite(req.TLS != nil, "https", "http"))
+//@   ensures host_kept_or_from_connection: header(req.Header, "X-Forwarded-Host") == ite(upstream(rw, req, "X-Forwarded-Host") != "", upstream(rw, req, "X-Forwarded-Host"), req.Host)
+//@   ensures port_kept_or_from_connection: header(req.Header, "X-Forwarded-Port") == ite(upstream(rw, req, "X-Forwarded-Port") != "", upstream(rw, req, "X-Forwarded-Port"), connPort(req))
+//@   ensures real_ip_kept_or_peer_without_zone: header(req.Header, "X-Real-Ip") == ite(shp_ok(req.RemoteAddr) && upstream(rw, req, "X-Real-Ip") == "", zonecut(shp_host(req.RemoteAddr)), upstream(rw, req, "X-Real-Ip"))
+//@   ensures server_always_set: header(req.Header, "X-Forwarded-Server") == ite(rw.Hostname != "", rw.Hostname, upstream(rw, req, "X-Forwarded-Server"))
+//@   ensures for_left_to_the_proxy: header(req.Header, "X-Forwarded-For") == upstream(rw, req, "X-Forwarded-For")
+//@   ensures other_headers_untouched: forall k string :: !fwdName(canon(k)) ==> header(req.Header, k) == old(header(req.Header, k))
+
+// The Director installed by New: modifyRequest, then Rewrite, then the Host decision.
+//@ func New$1
+//@   props C08
+//@   requires request != nil && request.URL != nil && request.Header != nil && h != nil
+//@   requires header_values_allocated: forall k string :: allocated(backing(request.Header[k]))
+//@   modifies request.URL.Path, request.URL.RawPath, request.URL.RawQuery, request.RequestURI, request.Proto, request.ProtoMajor, request.ProtoMinor, request.Host, mapof(request.Header)
+//@   ensures host_is_the_backend_unless_passed: request.Host == ite(passHostHeader, old(request.Host), request.URL.Host)
+//@   ensures backend_chosen_by_the_caller: request.URL == old(request.URL) && request.URL.Scheme == old(request.URL.Scheme) && request.URL.Host == old(request.URL.Host)
+//@   ensures target_as_the_client_sent_it: old(request.RequestURI) != "" && pu_ok(old(request.RequestURI)) ==> request.URL.Path == pu_path(old(request.RequestURI)) && request.URL.RawPath == pu_rawpath(old(request.RequestURI)) && request.URL.RawQuery == pu_query(old(request.RequestURI))
+//@   ensures url_kept_without_request_line: old(request.RequestURI) == "" || !pu_ok(old(request.RequestURI)) ==> request.URL.Path == old(request.URL.Path) && request.URL.RawPath == old(request.URL.RawPath) && request.URL.RawQuery == old(request.URL.RawQuery)
+//@   ensures http11_no_request_uri: request.RequestURI == "" && request.Proto == "HTTP/1.1" && request.ProtoMajor == 1 && request.ProtoMinor == 1
+//@   ensures forwarded_host_is_the_clients: header(request.Header, "X-Forwarded-Host") == ite(h.TrustForwardHeader && old(header(request.Header, "X-Forwarded-Host")) != "", old(header(request.Header, "X-Forwarded-Host")), old(request.Host))
+//@   ensures forwarded_proto: header(request.Header, "X-Forwarded-Proto") == ite(h.TrustForwardHeader && old(header(request.Header, "X-Forwarded-Proto")) != "", old(header(request.Header, "X-Forwarded-Proto")), ite(request.TLS != nil, "https", "http"))
+//@   ensures real_ip: header(request.Header, "X-Real-Ip") == ite(shp_ok(request.RemoteAddr) && !(h.TrustForwardHeader && old(header(request.Header, "X-Real-Ip")) != ""), zonecut(shp_host(request.RemoteAddr)), ite(h.TrustForwardHeader, old(header(request.Header, "X-Real-Ip")), ""))
+//@   ensures forwarded_port_upstream: h.TrustForwardHeader && old(header(request.Header, "X-Forwarded-Port")) != "" ==> header(request.Header, "X-Forwarded-Port") == old(header(request.Header, "X-Forwarded-Port"))
+//@   ensures forwarded_port_of_host: !(h.TrustForwardHeader && old(header(request.Header, "X-Forwarded-Port")) != "") && shp_ok(old(request.Host)) && shp_port(old(request.Host)) != "" ==> header(request.Header, "X-Forwarded-Port") == shp_port(old(request.Host))
+//@   ensures forwarded_port_default: !(h.TrustForwardHeader && old(header(request.Header, "X-Forwarded-Port")) != "") && !(shp_ok(old(request.Host)) && shp_port(old(request.Host)) != "") ==> header(request.Header, "X-Forwarded-Port") == ite(header(request.Header, "X-Forwarded-Proto") == "https" || header(request.Header, "X-Forwarded-Proto") == "wss" || request.TLS != nil, "443", "80")
+//@   ensures server_name: h.Hostname != "" ==> header(request.Header, "X-Forwarded-Server") == h.Hostname
+//@   ensures other_headers_untouched: forall k string :: !fwdName(canon(k)) ==> header(request.Header, k) == old(header(request.Header, k))
+
+//@ func NewHeaderRewriter
+//@   props C08
+//@   modifies external
+//@   ensures result != nil && fresh(result) && result.TrustForwardHeader
+
+// ---- composition with the proxy's own pipeline (assumed: net/http/httputil.ReverseProxy configured with a Director, go1.23:
+// out := clone(in); Director(out); every header named in out's Connection header and the fixed hop-by-hop set are removed;
+// the peer is appended to X-Forwarded-For; out is sent). Headers are abstracted to their first value:
+//   c08_in   the client's request      c08_dir  after the Director      c08_out  what the backend receives
+//   c08_conn(k): k is named in the client's Connection header            c08_hop(k): k is in the fixed hop-by-hop set
+// The hypotheses below restate the Director's proved contract and the assumed pipeline.
+//@ spec c08_in(k string) string
+//@ spec c08_dir(k string) string
+//@ spec c08_out(k string) string
+//@ spec c08_conn(k string) bool
+//@ spec c08_hop(k string) bool
+//@ pred c08_fwd(k string) = k == "X-Forwarded-Proto" || k == "X-Forwarded-For" || k == "X-Forwarded-Host" || k == "X-Forwarded-Port" || k == "X-Forwarded-Server" || k == "X-Real-Ip"
+//@ pred c08_pipeline() = forall k string :: k != "X-Forwarded-For" ==> c08_out(k) == ite(c08_conn(k) || c08_hop(k), "", c08_dir(k))
+//@ pred c08_director_frame() = forall k string :: !c08_fwd(k) ==> c08_dir(k) == c08_in(k)
+//@ pred c08_fixed_hop_set() = !c08_hop("X-Forwarded-Proto") && !c08_hop("X-Forwarded-Host") && !c08_hop("X-Forwarded-Port") && !c08_hop("X-Forwarded-Server") && !c08_hop("X-Real-Ip")
+//@ theorem {C08} c08_end_to_end_headers_preserved: forall k string :: c08_pipeline() && c08_director_frame() && !c08_fwd(k) && !c08_conn(k) && !c08_hop(k) ==> c08_out(k) == c08_in(k)
+//@ theorem {C08} c08_hop_by_hop_headers_not_forwarded: forall k string :: c08_pipeline() && k != "X-Forwarded-For" && (c08_conn(k) || c08_hop(k)) ==> c08_out(k) == ""
+//@ theorem {C08} c08_forwarding_headers_reach_the_backend_unless_named_in_connection: forall k string :: c08_pipeline() && c08_fixed_hop_set() && c08_fwd(k) && k != "X-Forwarded-For" && !c08_conn(k) ==> c08_out(k) == c08_dir(k)
+//@ theorem {C08} c08_forwarding_headers_survive_hop_removal: forall k string :: c08_pipeline() && c08_fixed_hop_set() && c08_fwd(k) && k != "X-Forwarded-For" ==> c08_out(k) == c08_dir(k)
